@@ -312,6 +312,47 @@ func main() {
 				send(m, "/"+good, tok{str: s}, r.Intn(2))
 			}
 		}
+		// a SEQUENCE with one token string: first the path its key belongs to (succeeds when the keys are configured), then the very
+		// same string on the other path, which must be refused whatever was accepted before (no cross-key memory of verified tokens)
+		for _, loc := range []int{0, 1} {
+			rk, wk := cfg[1], cfg[0]
+			if rk == "" {
+				rk = "unusedr"
+			}
+			if wk == "" {
+				wk = "unusedw"
+			}
+			rt := mkTok("HS256", rk, good, 0, 0, now-50-int64(loc)) // iat in the past: a fresh string that never expires
+			wt := mkTok("HS384", wk, good, 0, 0, now-50-int64(loc))
+			send("GET", "/"+good, rt, loc)
+			send("HEAD", "/"+good, rt, loc)
+			for _, m := range []string{"POST", "PUT", "DELETE"} {
+				send(m, "/"+good, rt, loc)
+				send(m, "/"+good+"_1", rt, loc)
+			}
+			send("POST", "/"+good, wt, loc)
+			send("GET", "/"+good, wt, loc)
+			send("HEAD", "/"+good+"_1", wt, loc)
+			send("DELETE", "/"+good+"_1", wt, loc)
+			send("GET", "/"+good, wt, loc)
+			send("POST", "/"+good, rt, loc)
+		}
+		// claims that are strict textual PREFIXES of the target (a shorter needle-id/cookie split of the same hex string, the bare
+		// volume id, the empty claim), the target addressed in the sub-file form `fid_n`
+		for _, m := range methods {
+			k := cfg[0]
+			if m == "GET" || m == "HEAD" {
+				k = cfg[1]
+			}
+			if k == "" {
+				k = "unused"
+			}
+			for _, c := range []string{"3," + keyHex[:len(keyHex)-2], "3," + keyHex[:len(keyHex)-1], "3," + keyHex[:4], "3,", "3", "", "3," + keyHex + "_", "3," + keyHex + "_1"} {
+				for _, p := range []string{"/3," + keyHex + "_0", "/3," + keyHex + "_1", "/3/" + keyHex + "_2", "/3," + keyHex + "_1.txt"} {
+					send(m, p, mkTok("HS256", k, c, 0, 0, 0), r.Intn(3))
+				}
+			}
+		}
 		// random mixes
 		for i := 0; i < a.N(120); i++ {
 			k := r.Pick(keys)
